@@ -4,4 +4,4 @@ import json, sys
 pid = sys.argv[1]
 skip = set(sys.argv[2:])
 c = json.load(open('/verif/evidence/%s.json' % pid))['coverage']['classes']
-print({k: max(5, v // 4) for k, v in sorted(c.items()) if k != 'trivial' and not any(k.startswith(s) for s in skip)})
+print({k: (max(5, v // 4) if v >= 80 else max(1, v // 8)) for k, v in sorted(c.items()) if k != 'trivial' and not any(k.startswith(s) for s in skip)})
